@@ -18,6 +18,30 @@ UNINIT = 'uninit'
 EPS = Fraction(1, 2 ** 52)
 
 
+# un-inlined cgmath call -> local shim whose printed body is that cgmath function (harness/src/shims.rs)
+SHIMS = {
+    '<cgmath::Quaternion<R> as cgmath::Rotation>::rotate_vector': 'shim_quat_rotate_vector',
+    '<cgmath::Basis3<R> as cgmath::Rotation>::rotate_vector': 'shim_basis3_rotate_vector',
+    '<cgmath::Basis2<R> as cgmath::Rotation>::rotate_vector': 'shim_basis2_rotate_vector',
+    '<cgmath::Quaternion<R> as std::ops::Mul<cgmath::Vector3<R>>>::mul': 'shim_quat_mul_v3',
+    '<cgmath::Quaternion<R> as std::ops::Mul>::mul': 'shim_quat_mul_quat',
+    '<cgmath::Matrix3<R> as std::ops::Mul<cgmath::Vector3<R>>>::mul': 'shim_m3_mul_v3',
+    '<cgmath::Matrix3<R> as std::ops::Mul>::mul': 'shim_m3_mul_m3',
+    '<cgmath::Matrix4<R> as std::ops::Mul>::mul': 'shim_m4_mul_m4',
+    '<cgmath::Matrix4<R> as std::ops::Mul<cgmath::Vector4<R>>>::mul': 'shim_m4_mul_v4',
+    '<cgmath::Quaternion<R> as cgmath::Rotation>::invert': 'shim_quat_invert',
+    '<cgmath::Basis3<R> as cgmath::Rotation>::invert': 'shim_basis3_invert',
+    '<cgmath::Basis2<R> as cgmath::Rotation>::invert': 'shim_basis2_invert',
+    '<cgmath::Matrix3<R> as cgmath::SquareMatrix>::invert': 'shim_m3_invert',
+    '<cgmath::Matrix4<R> as cgmath::SquareMatrix>::invert': 'shim_m4_invert',
+    '<cgmath::Matrix2<R> as cgmath::SquareMatrix>::invert': 'shim_m2_invert',
+    '<cgmath::Matrix3<R> as From<cgmath::Quaternion<R>>>::from': 'shim_m3_from_quat',
+    '<cgmath::Quaternion<R> as From<cgmath::Matrix3<R>>>::from': 'shim_quat_from_m3',
+    '<cgmath::Vector3<R> as cgmath::InnerSpace>::normalize': 'shim_v3_normalize',
+    '<cgmath::Quaternion<R> as cgmath::InnerSpace>::normalize': 'shim_quat_normalize',
+}
+
+
 class Ptr:
     __slots__ = ('obj', 'off')
 
@@ -157,6 +181,7 @@ class Machine:
         s.returned = []
         s.panicked = []
         s.opaque_used = set()
+        s.shims_used = set()
         s.npaths = 0
 
     # ------------------------------------------------------------------ helpers
@@ -921,7 +946,20 @@ class Machine:
         if s.stats['forks'] > s.max_forks:
             raise Fuel('fork bound exceeded')
         live = []
+        pcset = set(x for x in p.pc if is_sym(x))
+        # a branch condition that is literally (the negation of) a recorded atom needs no solver query
+        forced = [c for c, _, _ in conds if is_sym(c) and c in pcset]
         for c, cont, fix in conds:
+            if forced and c is not forced[0]:
+                s.stats['pruned'] += 1
+                continue
+            if is_sym(c) and bnot(c) in pcset:
+                s.stats['pruned'] += 1
+                continue
+            if forced:
+                q = p.clone()
+                live.append((q, cont))
+                continue
             q = p.clone()
             if c is not True:
                 q.pc.append(c)
@@ -1121,6 +1159,9 @@ class Machine:
                 callee = s.fns.get(fname)
                 if callee is None:
                     callee = s.fns.get(fname.split('::<')[0])
+                if (callee is None or not callee.blocks) and fname in SHIMS:
+                    callee = s.fns.get('shims::' + SHIMS[fname]) or s.fns.get(SHIMS[fname])
+                    s.shims_used.add(fname)
                 if callee is None or not callee.blocks:
                     raise MirError('call to function without body: ' + fname)
                 fid = p.nfid
